@@ -2,108 +2,7 @@
 
 package ansi
 
-import (
-	"servitor/verifrt"
-	"unicode"
-	"unicode/utf8"
-)
-
-// Terminal model: an independent scanner (it shares no code with expand).
-// ESC [ params m adds params to the active set; "0" clears it.
-
-type vCell struct {
-	r     rune
-	attrs string // active parameters, in order of activation, '|' separated
-}
-
-type vScreen struct {
-	lines     [][]vCell
-	nlActive  []string // active set at each '\n'
-	endActive string   // active set at end of text
-	ok        bool     // well-formed
-}
-
-func vParse(s string) *vScreen {
-	sc := &vScreen{ok: true}
-	cur := []vCell{}
-	active := ""
-	for i := 0; i < len(s); {
-		if s[i] == 0x1b {
-			if i+1 >= len(s) || s[i+1] != '[' {
-				sc.ok = false
-				break
-			}
-			j := i + 2
-			for j < len(s) && s[j] != 'm' {
-				j++
-			}
-			if j >= len(s) {
-				sc.ok = false
-				break
-			}
-			p := s[i+2 : j]
-			if p == "0" {
-				active = ""
-			} else if active == "" {
-				active = p
-			} else {
-				active += "|" + p
-			}
-			i = j + 1
-			continue
-		}
-		r, size := utf8.DecodeRuneInString(s[i:])
-		i += size
-		if r == '\n' {
-			sc.lines = append(sc.lines, cur)
-			sc.nlActive = append(sc.nlActive, active)
-			cur = []vCell{}
-			continue
-		}
-		cur = append(cur, vCell{r, active})
-	}
-	sc.lines = append(sc.lines, cur)
-	sc.endActive = active
-	return sc
-}
-
-func (sc *vScreen) neutralAtBreaks() bool {
-	for _, a := range sc.nlActive {
-		if a != "" {
-			return false
-		}
-	}
-	return sc.endActive == ""
-}
-
-// flat returns the cells with line indices.
-type vPos struct {
-	c    vCell
-	line int
-	col  int
-}
-
-func (sc *vScreen) flat() []vPos {
-	var out []vPos
-	for li, l := range sc.lines {
-		for ci, c := range l {
-			out = append(out, vPos{c, li, ci})
-		}
-	}
-	return out
-}
-
-func sameCell(a, b vCell) bool { return verifrt.All(a.r == b.r, a.attrs == b.attrs) }
-
-func visible(ps []vPos) []vPos {
-	var out []vPos
-	for _, p := range ps {
-		if !unicode.IsSpace(p.c.r) {
-			out = append(out, p)
-		}
-	}
-	return out
-}
+import "servitor/verifrt"
 
 // ---- styled text generator: real ansi.Apply over symbolic characters
 
